@@ -98,33 +98,33 @@ type Driver struct {
 
 	rSched, rLat, rJit, rYield, rWatch, rFault *Rng
 
-	free       bool // free-run mode (C20): no central scheduling
-	hasBare    bool // some election object has no Metrics: its flag is polled
+	free    bool // free-run mode (C20): no central scheduling
+	hasBare bool // some election object has no Metrics: its flag is polled
 	// plans with Sched.InLock: who owns which mutex, who waits before which Lock call
 	lockOwn      map[any][]lockOwner
 	gateWait     map[any][]chan struct{}
 	gatedOn      map[uint64]any
 	parkedInLock int
 	deadlockSeen bool
-	ending     bool
-	gids       map[uint64]int
-	gidInst    map[uint64]int // goroutine -> instance it was last seen working for
-	rJitInst   map[int]*Rng
-	parked     map[*yieldReq]bool
-	nParked    int                  // goroutines parked at a yield site (requested or accepted)
-	trackLocks bool                 // the plan is judged by an oracle that looks at lock order
-	lockHeld   map[uint64][]string  // goroutine -> locks held (instrumented copy only)
-	lockEdges  map[[2]string]string // (held, acquired) -> call stack of the first observation
-	inflight   map[*Op]bool
-	apiBusy    []int // per instance: API calls in progress
-	apiSeq     int
-	ileave     uint64
-	stats      Stats
-	opTrig     map[[2]int][]*Action // (inst, nth) -> actions
-	firedAct   map[*Action]bool
-	lastNow    time.Duration
-	maxDepth   int
-	panicMsg   string
+	ending       bool
+	gids         map[uint64]int
+	gidInst      map[uint64]int // goroutine -> instance it was last seen working for
+	rJitInst     map[int]*Rng
+	parked       map[*yieldReq]bool
+	nParked      int                  // goroutines parked at a yield site (requested or accepted)
+	trackLocks   bool                 // the plan is judged by an oracle that looks at lock order
+	lockHeld     map[uint64][]string  // goroutine -> locks held (instrumented copy only)
+	lockEdges    map[[2]string]string // (held, acquired) -> call stack of the first observation
+	inflight     map[*Op]bool
+	apiBusy      []int // per instance: API calls in progress
+	apiSeq       int
+	ileave       uint64
+	stats        Stats
+	opTrig       map[[2]int][]*Action // (inst, nth) -> actions
+	firedAct     map[*Action]bool
+	lastNow      time.Duration
+	maxDepth     int
+	panicMsg     string
 
 	driverGID    uint64
 	endLeaders   []int
